@@ -295,6 +295,54 @@ def check_duration(repo: Repo, run: Run) -> None:
     run.floor("C10.R4", n, 3)
 
 
+def check_absent_vs_falsy(repo: Repo, run: Run, rule: str, classes=("IntType", "UintType", "DoubleType", "StringType", "BytesType", "BoolType")) -> int:
+    """Shared by C10 (conversions), C07 (literals are built by these constructors) and C15 (json_to_cel builds
+    every scalar through them)."""
+    ct = repo.mod("celtypes")
+    count = 0
+    # R7: absence is `is None`, not falsiness --------------------------------------------------------
+    # a constructor of a scalar CEL type that replaces a *falsy* source by a default (`source or 0`, `if not source`)
+    # also replaces the meaningful falsy values: 0, 0u, "", b"" and -0.0 (whose sign is lost: 1.0 / -0.0)
+    for cname in classes:
+        if not ct.has_class(cname):
+            continue
+        fn = class_methods(ct.cls(cname)).get("__new__")
+        if fn is None or len(fn.args.args) < 2:
+            continue
+        src = fn.args.args[1].arg
+        aliases = {src}
+        for n in ast.walk(fn):
+            if isinstance(n, ast.Assign) and isinstance(n.targets[0], ast.Name) and isinstance(strip_cast(n.value), ast.Name) and strip_cast(n.value).id in aliases:
+                aliases.add(n.targets[0].id)
+        bad = []
+        for n in ast.walk(fn):
+            if isinstance(n, ast.BoolOp) and isinstance(n.op, ast.Or) and isinstance(strip_cast(n.values[0]), ast.Name) and strip_cast(n.values[0]).id in aliases \
+                    and isinstance(strip_cast(n.values[-1]), ast.Constant):
+                bad.append(ast.unparse(n))
+            if isinstance(n, (ast.If, ast.IfExp)):
+                t = strip_cast(n.test)
+                neg = t.operand if isinstance(t, ast.UnaryOp) and isinstance(t.op, ast.Not) else None
+                if isinstance(neg, ast.Name) and neg.id in aliases:
+                    bad.append("if " + ast.unparse(t))
+                elif isinstance(t, ast.Name) and t.id in aliases and isinstance(n, ast.IfExp) and isinstance(strip_cast(n.orelse), ast.Constant):
+                    bad.append(ast.unparse(n))
+        count += 1
+        run.ob(rule, f"{cname}.__new__|absent-vs-falsy", not bad,
+               f"{cname}.__new__ " + ("treats only None as an absent source" if not bad else
+                                      f"decides absence by truthiness (`{bad[0][:50]}`): a falsy source that is a value - 0, an empty string, -0.0 (sign lost) - is replaced by the default"),
+               ct.loc(fn))
+    return count
+
+
+def _under_abs(x: ast.AST) -> bool:
+    p = getattr(x, "_parent", None)
+    while p is not None and not isinstance(p, ast.stmt):
+        if isinstance(p, ast.Call) and dotted(p.func) == "abs":
+            return True
+        p = getattr(p, "_parent", None)
+    return False
+
+
 def check(repo: Repo, run: Run) -> None:
     run.explanation = (
         "R1 (must-pass-through): each arm of the source-kind ladder of IntType.__new__/UintType.__new__ that builds the value "
@@ -311,6 +359,55 @@ def check(repo: Repo, run: Run) -> None:
         n += check_int_ctor(repo, run, cname)
     run.floor("C10.R1", n, 12)
     check_duration(repo, run)
+    # R9: string(duration) is whole seconds followed by `s` - the text duration() reads back (instance shared with C11.D2)
+    run.borrow(repo, "C11", "C10.R9", lambda o: o["rule"] == "C11.D2" and "__str__" in o["key"], 1)
+    check_absent_vs_falsy(repo, run, "C10.R7")
+    # R8: string(timestamp) renders the offset as sign, hours, minutes ------------------------------------
+    # floor division / remainder of a *signed* offset rounds toward minus infinity: -03:30 would render as -04:30.
+    # Accepted: slicing strftime("%z"), or arithmetic on abs(offset) with the sign rendered separately.
+    tcls = ct.cls("TimestampType")
+    tstr = class_methods(tcls).get("__str__")
+    if tstr is None:
+        run.inconclusive("C10.R8", "TimestampType.__str__", "not defined in TimestampType")
+    else:
+        from ..core.model import class_methods_n
+
+        tstr = class_methods_n(tcls)["__str__"]
+        derived = set()
+        changed = True
+        while changed:
+            changed = False
+            for n in ast.walk(tstr):
+                if isinstance(n, ast.Assign):
+                    txt = ast.unparse(n.value)
+                    if "utcoffset" in txt or any(isinstance(x, ast.Name) and x.id in derived for x in ast.walk(n.value)):
+                        if "abs(" in txt and not any(isinstance(x, ast.Name) and x.id in derived and not _under_abs(x) for x in ast.walk(n.value)) and "utcoffset" not in txt.replace("abs(", "", 1):
+                            continue
+                        for t in n.targets:
+                            for x in ast.walk(t):
+                                if isinstance(x, ast.Name) and x.id not in derived:
+                                    derived.add(x.id)
+                                    changed = True
+        bad = []
+        for n in ast.walk(tstr):
+            operand = None
+            if isinstance(n, ast.BinOp) and isinstance(n.op, (ast.FloorDiv, ast.Mod)) and not isinstance(n.left, (ast.Constant, ast.JoinedStr)) and not (isinstance(n.left, ast.Constant) and isinstance(n.left.value, str)):
+                operand = n.left
+            if isinstance(n, ast.Call) and dotted(n.func) == "divmod" and n.args:
+                operand = n.args[0]
+            if operand is None:
+                continue
+            signed = any((isinstance(x, ast.Name) and x.id in derived) or (isinstance(x, ast.Attribute) and x.attr == "utcoffset") for x in ast.walk(operand))
+            if signed and "abs(" not in ast.unparse(operand):
+                bad.append(ast.unparse(n)[:60])
+        uses_z = any(isinstance(c, ast.Constant) and isinstance(c.value, str) and "%z" in c.value for c in ast.walk(tstr))
+        if bad:
+            run.ob("C10.R8", "TimestampType.__str__|offset", False,
+                   f"string(timestamp) computes the offset fields with `{bad[0]}` on the signed offset: floor division rounds toward minus infinity, so a negative offset with minutes (-03:30) is rendered as another instant (-04:30) and timestamp(string(t)) != t", ct.loc(tstr))
+        elif uses_z or derived:
+            run.ob("C10.R8", "TimestampType.__str__|offset", True, "string(timestamp) takes the offset from strftime('%z') / from the magnitude of the offset with a separate sign", ct.loc(tstr))
+        else:
+            run.inconclusive("C10.R8", "TimestampType.__str__", "how the offset is rendered was not recognised")
     # R5 -----------------------------------------------------------------
     s_new = class_methods(ct.cls("StringType")).get("__new__")
     b_new = class_methods(ct.cls("BytesType")).get("__new__")
